@@ -42,14 +42,7 @@ pub assume_specification [VCell::as_vector] (v: &VCell) -> (r: Result<&crate::vm
 pub assume_specification [VCell::as_lambda] (v: &VCell) -> (r: Result<&Lambda, Error>)
     ensures *v matches VCell::Lambda(l) ==> (r matches Ok(x) && *x == *l), !(*v is Lambda) ==> r is Err;
 pub assume_specification [VCell::as_lexical_env] (v: &VCell) -> (r: Result<&crate::vm::environment::LexicalEnvironment, Error>);
-/// one-line matches in vcell.rs
-pub assume_specification [VCell::as_ip] (v: &VCell) -> (r: Result<(usize, usize), Error>)
-    ensures *v matches VCell::InstructionPointer(a, b) ==> r == Ok::<(usize, usize), Error>((a, b)), !(*v is InstructionPointer) ==> r is Err;
-pub assume_specification [VCell::as_ep] (v: &VCell) -> (r: Result<usize, Error>)
-    ensures *v matches VCell::EnvironmentPointer(p) ==> r == Ok::<usize, Error>(p), !(*v is EnvironmentPointer) ==> r is Err;
-/// (checked by the Kani harness vcell_accessors on the real code)
-pub assume_specification [VCell::as_bp] (v: &VCell) -> (r: Result<usize, Error>)
-    ensures *v matches VCell::BasePointer(p) ==> r == Ok::<usize, Error>(p), !(*v is BasePointer) ==> r is Err;
+/// VCell::as_ip / as_ep / as_bp: verified in unit vcell (pre-rewrite str_consts), no longer assumed here
 pub assume_specification [crate::vm::vector::Vector::push] (v: &crate::vm::vector::Vector, x: VCell);
 pub assume_specification [Vm::build_closure_environment] (vm: &Vm, envmap: &crate::vm::environment::EnvironmentMap) -> (r: Result<crate::vm::environment::LexicalEnvironment, Error>);
 pub assume_specification [Vm::build_lexical_environment] (vm: &Vm, lambda: &Lambda, p: usize, e: &crate::vm::environment::LexicalEnvironment) -> (r: Result<crate::vm::environment::LexicalEnvironment, Error>);
